@@ -4,6 +4,7 @@
   entries while no error is pending (with an error pending no function reads them).
 -/
 import Binson.Lemmas.Latch
+import Binson.Lemmas.WriterXLemmas
 import Binson.Lemmas.WriterLemmas
 import Binson.Model.Transcribe
 namespace Binson
@@ -114,5 +115,12 @@ theorem writer_reset_fresh (w : Writer) (h : w.reset.2 = true) :
 
 /-- `writer_reset_fresh` is not vacuous -/
 example : (Writer.init #[0, 0] 2).1.reset.2 = true := by decide
+
+
+/-- whatever was written or failed before over the writer's full call vocabulary - NULL arguments, absurd lengths,
+    earlier resets included - a reset that returns true gives a writer like a fresh one (counter 0, no error, same capacity) -/
+theorem writer_reset_fresh_full (w : Writer) (ops : List WOpX) (h : (w.runX ops).reset.2 = true) :
+    (w.runX ops).reset.1.used = 0 ∧ (w.runX ops).reset.1.err = .none ∧ (w.runX ops).reset.1.cap = (w.runX ops).cap :=
+  runX_reset_fresh w ops h
 
 end Binson
